@@ -169,6 +169,8 @@ def run(ctx):
         for p in [0, 1, BUF - 2, BUF - 1, BUF, BUF + 1, 2 * BUF - 1, 2 * BUF, 2 * BUF + 1, rng.randrange(0, hi)]:
             kind = rng.choice([" ", "\n", "\t "])
             ptexts.append(((kind * p)[:p] + txt).encode())
+    # ... and of the re-laid-out texts of phase (a): tokens behind multi-line comments, CR/CRLF/LF mixtures, banners
+    ptexts += rng.sample(texts, min(len(texts), 400 if quick else 4000))
     pl = [hx(x) for x in ptexts]
     pi = ctx.run_impl("scan", pl)
     pm = ctx.run_model("scan", pl) if have_model else pi
@@ -182,7 +184,7 @@ def run(ctx):
             ctx.add_violation("token stream / positions of a padded text differ from the documented scanner",
                               {"input_hex": hx(x), "input_len": len(x), "implementation": i[:2000], "documented": r[:2000]})
     cov = {"evaluations": len(texts) + nparses + len(ptexts), "distinct_nontrivial": len(distinct),
-           "rule": "(a) seeded random specifications, 4 random layouts x 3 endings each (separators: blanks, tabs, LF/CRLF/CR, line comments, one-line and multi-line block comments with lines ending in `*`, banners): same callback sequence required; (b) padding sweep: head+PAD(kind,p)+tail for p = 0..2*4096+64 (quick: stride 7 plus every p within -40..+12 of both boundaries) x pad kinds (spaces, newlines, mixed, block comment, line comment) x 3 insertion points x with/without final newline: uniform result required; (c) token positions of padded texts against the model. non-trivial = distinct layout text",
+           "rule": "(a) seeded random specifications, 4 random layouts x 3 endings each (separators: blanks, tabs, LF/CRLF/CR, line comments, one-line and multi-line block comments with lines ending in `*`, banners): same callback sequence required; (b) padding sweep: head+PAD(kind,p)+tail for p = 0..2*4096+64 (quick: stride 7 plus every p within -40..+12 of both boundaries) x pad kinds (spaces, newlines, mixed, block comment, line comment) x 3 insertion points x with/without final newline: uniform result required; (c) token positions of padded texts and of a sample of the layouts of (a) against the documented scanner. non-trivial = distinct layout text",
            "samples": [texts[-1].decode(), sweeps[0] if sweeps else ""],
            "padding_parses": nparses, "sweeps": len(sweeps), "position_texts": len(ptexts), "correspondence_disagreements": ncorr,
            "trusted_base": TRUSTED_BASE + ["the dependency's two-half input buffer is kept away from its reload path by the lexer (buffer sized to the source); the model therefore has no buffer and the sweep (b) is what ties this to the code"]}
